@@ -119,6 +119,28 @@ func newE3(c *Ctx, reverse bool) *E3 {
 						a.fns = append(a.fns, f)
 						a.methods[f.Name()] = append(a.methods[f.Name()], f)
 					}
+					if f != nil && f.Synthetic != "" {
+						// a wrapper for a method promoted from an embedded struct: the method it forwards to, when that is an instance of
+						// a generic method of this package (`(*self[List]).Ego`), is a function of the package reached by interface calls
+						for _, b := range f.Blocks {
+							for _, in := range b.Instrs {
+								ci, ok := in.(ssa.CallInstruction)
+								if !ok {
+									continue
+								}
+								cal := ci.Common().StaticCallee()
+								if cal != nil && cal.Origin() != nil && cal.Origin().Pkg == spkg && cal.Parent() == nil && !seen[cal] && cal.Signature.Recv() != nil {
+									seen[cal] = true
+									a.fns = append(a.fns, cal)
+									mn := cal.Name()
+									if k := strings.Index(mn, "["); k > 0 {
+										mn = mn[:k]
+									}
+									a.methods[mn] = append(a.methods[mn], cal)
+								}
+							}
+						}
+					}
 				}
 			}
 		}
@@ -138,6 +160,14 @@ func newE3(c *Ctx, reverse bool) *E3 {
 						if cal := ci.Common().StaticCallee(); cal != nil && cal.Origin() != nil && cal.Origin().Pkg == spkg && cal.Parent() == nil && !seen[cal] {
 							seen[cal] = true
 							a.fns = append(a.fns, cal)
+							if cal.Signature.Recv() != nil {
+								// a method of an instantiated generic type (promoted into a container from its embedded base)
+								mn := cal.Name()
+								if k := strings.Index(mn, "["); k > 0 {
+									mn = mn[:k]
+								}
+								a.methods[mn] = append(a.methods[mn], cal)
+							}
 						}
 					}
 				}
@@ -184,6 +214,21 @@ func (a *E3) isContainerPtr(t types.Type) bool {
 	if p, ok := t.(*types.Pointer); ok {
 		if n, ok := p.Elem().(*types.Named); ok {
 			return a.c.Inv().ContOf(n) != nil
+		}
+	}
+	return false
+}
+
+// isEgoHolderPtr: a pointer to a container, or to the base struct embedded in one that holds its registered ego.
+func (a *E3) isEgoHolderPtr(t types.Type) bool {
+	if a.isContainerPtr(t) {
+		return true
+	}
+	if p, ok := t.(*types.Pointer); ok {
+		for _, ct := range a.c.Inv().Conts {
+			if ct.Base != nil && types.Identical(p.Elem(), ct.Base.Type()) {
+				return true
+			}
 		}
 	}
 	return false
@@ -350,6 +395,15 @@ func (a *E3) Callees(c *ssa.CallCommon) []*ssa.Function {
 			}
 			if it == nil || types.Implements(recv.Type(), it) {
 				out = append(out, f)
+				continue
+			}
+			// a method promoted from the base struct embedded in a container that implements the interface: what the call dispatches to
+			if p, ok := recv.Type().(*types.Pointer); ok {
+				for _, ct := range a.c.Inv().Conts {
+					if ct.Base != nil && types.Identical(p.Elem(), ct.Base.Type()) && types.Implements(types.NewPointer(ct.Named), it) {
+						out = append(out, f)
+					}
+				}
 			}
 		}
 		return out
@@ -757,7 +811,7 @@ func (a *E3) transfer(fn *ssa.Function, instr ssa.Instruction) {
 				fld := a.structField(addr.X, addr.Field)
 				o := a.get(addr)
 				switch {
-				case fld != nil && a.isFieldIface(fld.Type()) && a.isContainerPtr(addr.X.Type()):
+				case fld != nil && a.isFieldIface(fld.Type()) && a.isEgoHolderPtr(addr.X.Type()):
 					a.set(x, o&oROOTS|oVIAEGO) // the registered ego
 				case fld != nil && a.isSpine(fld.Type()):
 					a.set(x, o&oROOTS) // the spine of that container
@@ -798,7 +852,9 @@ func (a *E3) transfer(fn *ssa.Function, instr ssa.Instruction) {
 		switch addr := x.Addr.(type) {
 		case *ssa.FieldAddr:
 			fld := a.structField(addr.X, addr.Field)
-			if fld != nil && a.isContainerPtr(addr.X.Type()) {
+			if fld != nil && !a.isContainerPtr(addr.X.Type()) && a.isEgoHolderPtr(addr.X.Type()) && a.isFieldIface(fld.Type()) {
+				a.effect(fn, x, "store.ptr", a.get(addr)&oROOTS, v) // the ego field in the embedded base struct
+			} else if fld != nil && a.isContainerPtr(addr.X.Type()) {
 				kind := "store." + fld.Name()
 				if a.isSpine(fld.Type()) {
 					kind = "store.val"
@@ -969,6 +1025,30 @@ func (a *E3) ByName(name string) *ssa.Function {
 	for _, f := range a.fns {
 		if a.FuncName(f) == name {
 			return f
+		}
+	}
+	// "(*list).Ego" promoted from the embedded base struct of the container: the instance of the base's method for this container
+	for _, ct := range a.c.Inv().Conts {
+		prefix := "(*" + ct.Named.Obj().Name() + ")."
+		if ct.Base == nil || !strings.HasPrefix(name, prefix) {
+			continue
+		}
+		obj, _, _ := types.LookupFieldOrMethod(types.NewPointer(ct.Named), true, a.c.Types, strings.TrimPrefix(name, prefix))
+		m, ok := obj.(*types.Func)
+		if !ok {
+			continue
+		}
+		for _, f := range a.fns {
+			if f.Signature.Recv() == nil {
+				continue
+			}
+			o, ok := f.Object().(*types.Func)
+			if !ok || o.Origin() != m.Origin() {
+				continue
+			}
+			if p, ok := f.Signature.Recv().Type().(*types.Pointer); ok && types.Identical(p.Elem(), ct.Base.Type()) {
+				return f
+			}
 		}
 	}
 	return nil
